@@ -257,7 +257,23 @@ def call_method(it, obj, name, args, kwargs):
     f = METHODS.get((obj.kind, name))
     if f is None:
         raise EngineError(f'external {obj.kind}.{name} has no assumed contract')
+    it.used.add(f'<ext> {obj.kind}.{name}')
     return f(it, obj, *args, **kwargs)
+
+
+EXT_ASSUMPTIONS = {
+    'socket.recv': 'socket.recv(1) returns the next byte of the peer\'s stream, b"" at end of stream',
+    'socket.sendall': 'socket.sendall(b) appends b to what the peer reads (no loss, no reordering)',
+    'socket.close': 'socket.close() has no effect on data already exchanged',
+    'queue.put': 'queue.Queue is a thread-safe FIFO channel: put appends',
+    'queue.get': 'queue.Queue.get returns the items put, in order; what another thread puts is an '
+                 'arbitrary text (it may block: blocking / progress is not modelled); for the main '
+                 'thread it may raise KeyboardInterrupt (operator)',
+    'event.wait': 'threading.Event.wait/set/clear carry no data (only the assumed barrier contract '
+                  'of PlayerThread._sync_event speaks about what other threads have done)',
+    'file.write': 'file.write(s) appends s to the file text; the with-block closes the file',
+    'ssocket.accept': 'socket.accept() returns a fresh connection with an arbitrary byte stream',
+}
 
 
 # ---- native fakes ------------------------------------------------------------------------------
